@@ -171,6 +171,7 @@ RUNS = []
 for k in KS_QUICK + [8]:
     for name, entry, lo, hi, extra in GROUPS:
         extra = dict(extra); dyn = extra.pop('dyn', False); nblk = extra.pop('nblk', None)
+        if k == 8 and name.startswith('dyn_alloc'): continue      # 36 slots: cbmc does not finish within the thorough budget (measured: > 3000 s); K <= 5 covered
         quick = k in KS_QUICK
         if dyn and name.startswith('dyn_alloc') and (k, nblk) not in [(1, 0), (1, 1), (1, 2), (2, 0), (2, 1), (2, 2), (3, 0), (3, 1)]: quick = False   # larger slot universes: thorough tier
         tiers = ['quick', 'thorough'] if quick else ['thorough']
